@@ -245,10 +245,11 @@ SelectBinding ==
 RejectNoMatch ==
   /\ phase = "called" /\ Len(bindings) > 0 /\ EligibleSet = {}
   /\ outcome' = "error" /\ phase' = "rejected"
-  /\ UNCHANGED <<di, req, sel, path, hasBody, bodyL, queryL, dflt, msg, http, reply, result, calls, log>> /\ UNCHANGED shapeVars
+  /\ http' = IF Mutant = "send_on_no_match" THEN <<NoMsg>> ELSE http
+  /\ UNCHANGED <<di, req, sel, path, hasBody, bodyL, queryL, dflt, msg, reply, result, calls, log>> /\ UNCHANGED shapeVars
 ExpandPath ==
   /\ phase = "selected"
-  /\ path' = ExpandFrom(BToks(sel), req, 1) /\ phase' = "expanded"
+  /\ path' = ExpandFrom(BToks(IF Mutant = "path_from_primary" THEN 1 ELSE sel), req, 1) /\ phase' = "expanded"
   /\ UNCHANGED <<di, req, sel, hasBody, bodyL, queryL, dflt, msg, http, reply, result, outcome, calls, log>> /\ UNCHANGED shapeVars
 SetLeaves == {l \in Leaves : req[l] # <<>>}
 BodySpecFor(i) == IF Mutant = "body_from_primary" THEN bindings[1].body ELSE bindings[i].body
@@ -285,14 +286,14 @@ EncodeEnums ==
          bkeys == {BodyKey(sel, l) : l \in DOMAIN bodyL}
          b == [k \in bkeys |-> LET l == CHOOSE x \in DOMAIN bodyL : BodyKey(sel, x) = k
                                IN IF Mutant = "alt_without_int" THEN Wire0(l, bodyL[l]) ELSE Enc(l, Wire0(l, bodyL[l]))]
-     IN msg' = [verb |-> bindings[sel].verb, path |-> path,
+     IN msg' = [verb |-> bindings[IF Mutant = "verb_from_primary" THEN 1 ELSE sel].verb, path |-> path,
                 query |-> IF numeric THEN q @@ (AltParam :> AltValue) ELSE q,
                 hasBody |-> hasBody, body |-> b]
   /\ phase' = "encoded"
   /\ UNCHANGED <<di, req, sel, path, hasBody, bodyL, queryL, dflt, http, reply, result, outcome, calls, log>> /\ UNCHANGED shapeVars
 SendHttp ==
   /\ phase = "encoded"
-  /\ http' = Append(http, msg) /\ phase' = "sent"
+  /\ http' = (IF Mutant = "send_twice" THEN <<msg, msg>> ELSE Append(http, msg)) /\ phase' = "sent"
   /\ UNCHANGED <<di, req, sel, path, hasBody, bodyL, queryL, dflt, msg, reply, result, outcome, calls, log>> /\ UNCHANGED shapeVars
 ServerReply(rv) ==
   /\ phase = "sent"
